@@ -3,6 +3,7 @@ CONSTANTS
   Scenario = "awrite"
   N = 3
   Cap = 16
+  Kinds <- KindsNone
   GenK = 4
 VIEW View
 INVARIANT Inv_NoLostWake
